@@ -281,4 +281,42 @@ theorem read_over_whitespace_model_eq_source (pre s : Text) :
   simp only []
   rw [ws_outer _ pre s (by simp [Py.len]; omega)]
 
+/-! ### `Lexer._read_ellipsis` (`for _ in range(3)`) -/
+
+private theorem ellipsis_loop (n : Nat) : ∀ (it : List Int) (pre s : Text),
+    Tr.Lexer._read_ellipsis.loop1 (pre ++ s) it (pre.length : Int)
+      = match Lex.readDots n it.length s with
+        | .ok rest => .fall ((((pre ++ s).length - rest.length : Nat)) : Int)
+        | .error e => .raise (excName e.kind)
+  | [], pre, s => by simp [Tr.Lexer._read_ellipsis.loop1, Lex.readDots]
+  | _ :: it, pre, [] => by
+    rw [Tr.Lexer._read_ellipsis.loop1]
+    simp [getItem_end, Lex.readDots, excName]
+  | _ :: it, pre, c :: t => by
+    rw [Tr.Lexer._read_ellipsis.loop1]
+    simp only [getItem_at, List.length_cons, Lex.readDots]
+    by_cases hc : c = 46
+    · subst hc
+      have ih := ellipsis_loop n it (pre ++ [46]) t
+      have e1 : pre ++ [46] ++ t = pre ++ 46 :: t := by simp
+      have e2 : (((pre ++ [46]).length : Nat) : Int) = (pre.length : Int) + 1 := by simp
+      rw [e1, e2] at ih
+      simp [ih]
+    · simp [hc, excName]
+
+/-- **`Lexer._read_ellipsis`: model = source.** -/
+theorem read_ellipsis_model_eq_source (pre s : Text) :
+    Tr.Lexer._read_ellipsis (pre ++ s) (pre.length : Int)
+      = match Lex.readEllipsis (pre ++ s).length s with
+        | .ok (tok, _) => .ok (((tok.start : Int), (tok.stop : Int)), (tok.stop : Int))
+        | .error e => .error (excName e.kind) := by
+  unfold Tr.Lexer._read_ellipsis Lex.readEllipsis
+  have hr : (Py.range (0 : Int) (3 : Int)).length = 3 := by simp [Py.range]
+  have := ellipsis_loop (pre ++ s).length (Py.range (0 : Int) (3 : Int)) pre s
+  rw [hr] at this
+  simp only [this]
+  cases Lex.readDots (pre ++ s).length 3 s with
+  | error e => rfl
+  | ok rest => simp [Py.tok2, Lex.posAt]
+
 end PyGql.Props.C01
